@@ -64,6 +64,7 @@ type MApp struct {
 	RejectMsg   string
 	UgiNil      bool
 	PlacedQueue string // filled by observation (DAO), not by the shim protocol
+	Admitted    bool   // has had an allocation and has not been without allocations and asks since
 }
 
 type MNode struct {
